@@ -118,7 +118,7 @@ check("C17",
       "The interpreter's outcome classes are specified in AwQueryTrace (value, parse / interpret / function error, anything else escaping from parsing or name/arity/type resolution is inadmissible, so is non-termination). "
       "TLC generates single-fault programs with the family the property names for each fault and malformed texts; the harness adds every single-character corruption of sampled valid programs and every string of "
       "length <= 3 (thorough 4) over a 16-symbol alphabet in 7 contexts; every recorded outcome is judged by TLC.",
-      "Trusted: TLC; stage attribution by the innermost traceback frame; 5 s alarm as the termination bound. Exceptions raised inside a built-in's own computation are not judged; a lenient parser may accept malformed text.",
+      "Trusted: TLC; stage attribution by the innermost traceback frame; 5 s of CPU time as the termination bound (wall-clock alarms proved load-sensitive). Exceptions raised inside a built-in's own computation are not judged; a lenient parser may accept malformed text.",
       "TLA+ outcome spec + TLC fault generation + exhaustive short-string enumeration judged by TLC", "DESIGN.md §6 C17")
 check("C20",
       "spec/AwConfig.tla states Overlay on tagged document trees and the two load behaviours (existing file: Overlay + file untouched; no file: defaults, a file is written, later loads equal the defaults and leave it alone); "
